@@ -1,6 +1,7 @@
 package main
 
 import (
+	"time"
 	"context"
 	"encoding/json"
 	"fmt"
@@ -70,6 +71,7 @@ type c03Desc struct {
 	From   int      `json:"from"`
 	To     int      `json:"to"`
 	Sample []string `json:"sample,omitempty"`
+	Timed  bool     `json:"timed,omitempty"` // the service is started with an idle timeout: it concerns the listener only, never a call in progress
 }
 
 type c03State struct {
@@ -152,7 +154,11 @@ func c03Body(d c03Desc, tier string) func() {
 		l := vnet.NewListener("L0")
 		vsched.GoDaemon("M", func() {
 			s.VerifSetListener(l)
-			s.DoListen(w.Ctx, 0)
+			if d.Timed {
+				s.DoListen(w.Ctx, time.Hour)
+			} else {
+				s.DoListen(w.Ctx, 0)
+			}
 		})
 		c, _ := l.Dial("c0")
 		conn := varlink.VerifNewConnection(c)
@@ -238,6 +244,9 @@ func c03Body(d c03Desc, tier string) func() {
 						seqs = append(seqs, []string{a, b, cc})
 					}
 				}
+			}
+			if d.Timed {
+				seqs = [][]string{{pool[0], pool[1], pool[2]}, {pool[3]}}
 			}
 			for si, sq := range seqs {
 				echo.seq = sq
@@ -424,6 +433,13 @@ func c03Cases(x *vsched.Exec) int {
 	return 0
 }
 
+func pb0(tier string) int {
+	if tier != "quick" {
+		return 3
+	}
+	return 2
+}
+
 func scenariosC03(tier string) []Scen {
 	var out []Scen
 	docs := c03Docs(tier)
@@ -437,6 +453,9 @@ func scenariosC03(tier string) []Scen {
 		d := c03Desc{Kind: k}
 		out = append(out, Scen{Desc: d, Bound: 0, Horizon: 100000000, Body: c03Body(d, tier), Check: c03Check, Obs: c03Obs, Cases: c03Cases})
 	}
+	// a service with an idle timeout: whenever its clock runs out, a call in progress and its replies are not its business
+	dt := c03Desc{Kind: "more", Timed: true}
+	out = append(out, Scen{Desc: dt, Bound: pb0(tier), Body: c03Body(dt, tier), Check: c03Check, Obs: c03Obs, Cases: c03Cases})
 	// pipelining under schedule deviations: whether one read of the client pulls in several replies depends on
 	// the order in which the service's and the client's reads run
 	pb := 2
